@@ -239,3 +239,211 @@ Proof.
   intros Ha Hb p He Hq Ca Cb. apply closed_when_quiet; auto.
   apply (PINV_run ops (pair0 wa wb ka kb) (PINV_init wa wb ka kb Ha Hb)). exact He.
 Qed.
+
+(* ------------------------------------------------------------ the handshake terminates *)
+(* a measure that every packet delivery and every callback run strictly decreases *)
+Definition qw (q : ppkt) : nat := match q with QData _ => 2 | QAdjust _ => 1 | QEof => 2 | QClose => 3 end.
+Definition ww (l : list ppkt) : nat := fold_right (fun q n => qw q + n) 0 l.
+Definition phis (s : sstate) : nat :=
+  match s with SOpen | SEofPending => 5 | SEof | SClosePending => 3 | SClosed => 0 end.
+Definition mu (e : ep) : nat := 3 * e_sbuf e + phis (e_ss e) + e_pend e.
+Definition pm (p : pair) : nat := mu (pa p) + mu (pb p) + ww (wab p) + ww (wba p).
+Lemma ww_app a b : ww (a ++ b) = ww a + ww b.
+Proof. induction a as [|q a IH]; simpl; lia. Qed.
+
+Ltac msolve :=
+  intros [H1 H2 H3 H4 H5 H6 H7 H8 H9 H10 H11 H12]; cbh;
+  unfold mu, ww; cbn -[Nat.ltb Nat.leb Nat.eqb Nat.mul Nat.add Nat.sub Nat.min]; lsolve.
+
+Lemma p_data_meas e n : linv e -> let '(e', o, err) := p_data true e n in err = false -> mu e' + ww o + 1 <= mu e + 2.
+Proof. destruct e; unfold p_data, ok, deliver, emit. csplit; intros Hl Herr; try discriminate; revert Hl; msolve. Qed.
+Lemma p_adjust_meas e n : linv e -> let '(e', o, err) := p_adjust e n in err = false -> mu e' + ww o + 1 <= mu e + 1.
+Proof. destruct e; unfold p_adjust, ok, flush, close_send, emit, w_ss. csplit; intros Hl Herr; try discriminate; revert Hl; msolve. Qed.
+Lemma p_eof_meas e : linv e -> let '(e', o, err) := p_eof e in err = false -> mu e' + ww o + 1 <= mu e + 2.
+Proof.
+  destruct e; unfold p_eof, eof_in, ok, w_rs, flush_recv, deliver, write_eof, flush, close_send, emit, w_ss.
+  csplit; intros Hl Herr; try discriminate; revert Hl; msolve.
+Qed.
+Lemma p_close_meas e : linv e -> let '(e', o, err) := p_close e in err = false -> mu e' + ww o + 1 <= mu e + 3.
+Proof.
+  destruct e; unfold p_close, close_in, ok, w_rs, flush_recv, deliver, write_eof, flush, close_send, emit, w_ss.
+  csplit; intros Hl Herr; try discriminate; revert Hl; msolve.
+Qed.
+Lemma l_run_meas e : 0 < e_pend e -> mu (l_run e) + 1 <= mu e.
+Proof. destruct e; unfold l_run, mu; cbn. intros H. destruct e_pend; [lia|]. cbn. lia. Qed.
+
+Lemma p_recv_meas e q : linv e ->
+  let '(e', o, err) := p_recv true e q in err = false -> mu e' + ww o + 1 <= mu e + qw q.
+Proof.
+  intros Hl. unfold p_recv. destruct (e_reg e); [|intros; discriminate].
+  destruct q; cbn [qw]; [apply p_data_meas | apply p_adjust_meas | apply p_eof_meas | apply p_close_meas]; exact Hl.
+Qed.
+
+(* one delivery in either direction, one callback on either side *)
+Definition round : list pop := [ODeliver SA; ODeliver SB; ORun SA; ORun SB].
+Definition is_drain_op (o : pop) : bool := match o with ODeliver _ | ORun _ => true | _ => false end.
+
+(* a delivery / callback run never increases the measure, and decreases it when it does something *)
+Lemma drain_op_meas p o :
+  pinv p -> perr p = false -> is_drain_op o = true ->
+  let p' := pstep true p o in
+  perr p' = false -> pm p' <= pm p /\
+  (match o with
+   | ODeliver SA => wab p <> []
+   | ODeliver SB => wba p <> []
+   | ORun SA => 0 < e_pend (pa p)
+   | ORun SB => 0 < e_pend (pb p)
+   | _ => False
+   end -> pm p' < pm p).
+Proof.
+  intros [La Lb _ _] Ee Hd. unfold pstep. rewrite Ee. destruct o as [| | | | | |s|s]; try discriminate; destruct s; cbn [local].
+  - destruct (wab p) as [|q r] eqn:Ew; [intros _; split; [lia | congruence]|].
+    pose proof (p_recv_meas (pb p) q Lb) as M. destruct (p_recv true (pb p) q) as [[e' o'] err].
+    cbn [perr]. intros He. specialize (M He). unfold pm. cbn [pa pb wab wba]. rewrite Ew, ww_app.
+    change (ww (q :: r)) with (qw q + ww r). split; [lia | intros _; lia].
+  - destruct (wba p) as [|q r] eqn:Ew; [intros _; split; [lia | congruence]|].
+    pose proof (p_recv_meas (pa p) q La) as M. destruct (p_recv true (pa p) q) as [[e' o'] err].
+    cbn [perr]. intros He. specialize (M He). unfold pm. cbn [pa pb wab wba]. rewrite Ew, ww_app.
+    change (ww (q :: r)) with (qw q + ww r). split; [lia | intros _; lia].
+  - cbn [perr]. intros _. unfold pm; cbn [pa pb wab wba]. rewrite app_nil_r.
+    destruct (e_pend (pa p)) eqn:Ep.
+    + assert (l_run (pa p) = pa p) by (unfold l_run; rewrite Ep; reflexivity). rewrite H. split; [lia | lia].
+    + pose proof (l_run_meas (pa p)) as M. rewrite Ep in M. specialize (M ltac:(lia)). split; [lia | intros _; lia].
+  - cbn [perr]. intros _. unfold pm; cbn [pa pb wab wba]. rewrite app_nil_r.
+    destruct (e_pend (pb p)) eqn:Ep.
+    + assert (l_run (pb p) = pb p) by (unfold l_run; rewrite Ep; reflexivity). rewrite H. split; [lia | lia].
+    + pose proof (l_run_meas (pb p)) as M. rewrite Ep in M. specialize (M ltac:(lia)). split; [lia | intros _; lia].
+Qed.
+
+Lemma p_recv_closing e q : e_closing (fst (fst (p_recv true e q))) = e_closing e.
+Proof.
+  destruct e, q; unfold p_recv, p_data, p_adjust, p_eof, p_close, eof_in, close_in, ok, w_rs, flush_recv, deliver, write_eof,
+    flush, close_send, emit, w_ss; csplit; reflexivity.
+Qed.
+Lemma l_run_closing e : e_closing (l_run e) = e_closing e.
+Proof. destruct e; unfold l_run; cbn. destruct e_pend; reflexivity. Qed.
+
+Lemma drain_op_closing p o : is_drain_op o = true ->
+  e_closing (pa (pstep true p o)) = e_closing (pa p) /\ e_closing (pb (pstep true p o)) = e_closing (pb p).
+Proof.
+  intros Hd. unfold pstep. destruct (perr p); [auto|]. destruct o as [| | | | | |s|s]; try discriminate; destruct s; cbn [local].
+  - destruct (wab p) as [|q r]; [auto|]. pose proof (p_recv_closing (pb p) q) as H.
+    destruct (p_recv true (pb p) q) as [[e' o'] err]. cbn in *. auto.
+  - destruct (wba p) as [|q r]; [auto|]. pose proof (p_recv_closing (pa p) q) as H.
+    destruct (p_recv true (pa p) q) as [[e' o'] err]. cbn in *. auto.
+  - cbn. split; [apply l_run_closing | reflexivity].
+  - cbn. split; [reflexivity | apply l_run_closing].
+Qed.
+
+Lemma perr_sticky p o : perr p = true -> pstep true p o = p.
+Proof. intros H. unfold pstep. rewrite H. reflexivity. Qed.
+Lemma perr_sticky_run ops p : perr p = true -> prun true ops p = p.
+Proof. revert p; induction ops as [|o ops IH]; intros p H; simpl; auto. rewrite perr_sticky by exact H. apply IH, H. Qed.
+
+(* a list of delivery / callback ops: invariant kept, measure not increased, closing flags kept *)
+Lemma drain_ops_facts ops : forallb is_drain_op ops = true -> forall p,
+  pinv p -> perr p = false -> let p' := prun true ops p in
+  perr p' = false ->
+  pinv p' /\ pm p' <= pm p /\ e_closing (pa p') = e_closing (pa p) /\ e_closing (pb p') = e_closing (pb p).
+Proof.
+  induction ops as [|o ops IH]; intros Hall p Hp Ee; simpl.
+  { intros _. split; [exact Hp|]. split; [lia|]. split; reflexivity. }
+  apply andb_true_iff in Hall as [Ho Hall]. intros He.
+  destruct (perr (pstep true p o)) eqn:E1.
+  - rewrite perr_sticky_run in He by exact E1. congruence.
+  - assert (Hp1 : pinv (pstep true p o)) by (apply (PINV_step p o (fun _ => Hp)); exact E1).
+    destruct (drain_op_meas p o Hp Ee Ho E1) as [Hle _]. destruct (drain_op_closing p o Ho) as [Ca Cb].
+    destruct (IH Hall (pstep true p o) Hp1 E1 He) as (I & L & A & B).
+    split; [exact I|]. split; [lia|]. split; congruence.
+Qed.
+
+Lemma quiescent_spec p : quiescent p = true <-> wab p = [] /\ wba p = [] /\ e_pend (pa p) = 0 /\ e_pend (pb p) = 0.
+Proof.
+  unfold quiescent. destruct (wab p), (wba p); split; intros H; try discriminate; try (destruct H as (? & ? & ? & ?); discriminate).
+  - apply andb_true_iff in H as [H1 H2]. apply Nat.eqb_eq in H1, H2. auto.
+  - destruct H as (_ & _ & H1 & H2). rewrite H1, H2. reflexivity.
+Qed.
+
+(* one round strictly decreases the measure unless the state is quiescent already *)
+Lemma round_meas p : pinv p -> perr p = false -> quiescent p = false ->
+  let p' := prun true round p in perr p' = false -> pm p' < pm p.
+Proof.
+  intros Hp Ee Hq. unfold round. cbn [prun fold_left]. intros He.
+  set (p1 := pstep true p (ODeliver SA)) in *. set (p2 := pstep true p1 (ODeliver SB)) in *.
+  set (p3 := pstep true p2 (ORun SA)) in *. set (p4 := pstep true p3 (ORun SB)) in *.
+  assert (E3 : perr p3 = false) by (destruct (perr p3) eqn:E; auto; unfold p4 in He; rewrite perr_sticky in He by exact E; congruence).
+  assert (E2 : perr p2 = false) by (destruct (perr p2) eqn:E; auto; unfold p3 in E3; rewrite perr_sticky in E3 by exact E; congruence).
+  assert (E1 : perr p1 = false) by (destruct (perr p1) eqn:E; auto; unfold p2 in E2; rewrite perr_sticky in E2 by exact E; congruence).
+  assert (I1 : pinv p1) by (apply (PINV_step p _ (fun _ => Hp)); exact E1).
+  assert (I2 : pinv p2) by (apply (PINV_step p1 _ (fun _ => I1)); exact E2).
+  assert (I3 : pinv p3) by (apply (PINV_step p2 _ (fun _ => I2)); exact E3).
+  destruct (drain_op_meas p (ODeliver SA) Hp Ee eq_refl E1) as [L1 S1].
+  destruct (drain_op_meas p1 (ODeliver SB) I1 E1 eq_refl E2) as [L2 S2].
+  destruct (drain_op_meas p2 (ORun SA) I2 E2 eq_refl E3) as [L3 S3].
+  destruct (drain_op_meas p3 (ORun SB) I3 E3 eq_refl He) as [L4 S4].
+  fold p1 in L1, S1. fold p2 in L2, S2. fold p3 in L3, S3. fold p4 in L4, S4.
+  destruct (wab p) as [|qa ra] eqn:Ea; [|assert (pm p1 < pm p) by (apply S1; discriminate); lia].
+  assert (P1 : p1 = p) by (unfold p1, pstep; rewrite Ee, Ea; reflexivity).
+  destruct (wba p) as [|qb rb] eqn:Eb; [|assert (pm p2 < pm p1) by (apply S2; rewrite P1, Eb; discriminate); lia].
+  assert (P2 : p2 = p) by (unfold p2, pstep; rewrite P1, Ee, Eb; reflexivity).
+  destruct (e_pend (pa p)) as [|na] eqn:Epa; [|assert (pm p3 < pm p2) by (apply S3; rewrite P2, Epa; lia); lia].
+  assert (P3 : p3 = p).
+  { unfold p3, pstep. rewrite P2, Ee. cbn [local]. unfold l_run. rewrite Epa, app_nil_r. destruct p; cbn in *. congruence. }
+  destruct (e_pend (pb p)) as [|nb] eqn:Epb; [|assert (pm p4 < pm p3) by (apply S4; rewrite P3, Epb; lia); lia].
+  exfalso. assert (quiescent p = true) by (apply quiescent_spec; auto). congruence.
+Qed.
+
+Fixpoint rounds (n : nat) : list pop := match n with O => [] | S k => round ++ rounds k end.
+Lemma rounds_drain n : forallb is_drain_op (rounds n) = true.
+Proof. induction n; simpl; auto. Qed.
+
+Lemma quiescent_round p : perr p = false -> quiescent p = true -> prun true round p = p.
+Proof.
+  intros Ee Hq. apply quiescent_spec in Hq as (Ea & Eb & Epa & Epb).
+  unfold round. cbn [prun fold_left].
+  assert (P1 : pstep true p (ODeliver SA) = p) by (unfold pstep; rewrite Ee, Ea; reflexivity). rewrite P1.
+  assert (P2 : pstep true p (ODeliver SB) = p) by (unfold pstep; rewrite Ee, Eb; reflexivity). rewrite P2.
+  assert (P3 : pstep true p (ORun SA) = p).
+  { unfold pstep. rewrite Ee. cbn [local]. unfold l_run. rewrite Epa, app_nil_r. destruct p; cbn in *. congruence. }
+  rewrite P3. unfold pstep. rewrite Ee. cbn [local]. unfold l_run. rewrite Epb, app_nil_r. destruct p; cbn in *. congruence.
+Qed.
+
+Lemma quiescent_rounds n p : perr p = false -> quiescent p = true -> prun true (rounds n) p = p.
+Proof.
+  intros Ee Hq. induction n as [|n IH]; [reflexivity|]. cbn [rounds]. unfold prun. rewrite fold_left_app.
+  fold (prun true round p). rewrite quiescent_round by assumption. exact IH.
+Qed.
+
+Lemma drain_quiesces n : forall p, pinv p -> perr p = false -> pm p <= n ->
+  let p' := prun true (rounds n) p in perr p' = true \/ quiescent p' = true.
+Proof.
+  induction n as [|n IH]; intros p Hp Ee Hm; cbn [rounds prun fold_left].
+  - right. apply quiescent_spec. unfold pm, mu in Hm.
+    destruct (wab p) as [|q r]; [|cbn in Hm; destruct q; cbn in Hm; lia].
+    destruct (wba p) as [|q r]; [|cbn in Hm; destruct q; cbn in Hm; lia]. repeat split; auto; lia.
+  - unfold prun. rewrite fold_left_app. fold (prun true round p). fold (prun true (rounds n) (prun true round p)).
+    destruct (quiescent p) eqn:Hq.
+    + rewrite quiescent_round by assumption. rewrite quiescent_rounds by assumption. right; exact Hq.
+    + destruct (perr (prun true round p)) eqn:E1.
+      * left. rewrite perr_sticky_run by exact E1. exact E1.
+      * pose proof (round_meas p Hp Ee Hq E1) as Hlt.
+        destruct (drain_ops_facts round eq_refl p Hp Ee E1) as (I1 & _).
+        apply IH; auto. lia.
+Qed.
+
+(* both sides closing: after enough deliveries and callback runs both are fully closed (or a protocol
+   error has ended the connection) *)
+Lemma handshake_reached wa wb ka kb ops :
+  1 <= wa -> 1 <= wb ->
+  let p := prun true ops (pair0 wa wb ka kb) in
+  perr p = false -> e_closing (pa p) = true -> e_closing (pb p) = true ->
+  let p' := prun true (rounds (pm p)) p in
+  perr p' = true \/ (quiescent p' = true /\ fully_closed (pa p') = true /\ fully_closed (pb p') = true).
+Proof.
+  intros Ha Hb p Ee Ca Cb p'.
+  assert (Hp : pinv p) by (apply (PINV_run ops (pair0 wa wb ka kb) (PINV_init wa wb ka kb Ha Hb)); exact Ee).
+  destruct (drain_quiesces (pm p) p Hp Ee (le_n _)) as [He|Hq]; [left; exact He|].
+  fold p' in Hq. destruct (perr p') eqn:Ee'; [left; reflexivity|]. right.
+  destruct (drain_ops_facts (rounds (pm p)) (rounds_drain _) p Hp Ee Ee') as (I & _ & A & B). fold p' in I, A, B.
+  split; [exact Hq|]. apply closed_when_quiet; auto; congruence.
+Qed.
